@@ -79,6 +79,7 @@ Qed.
 
 Section Data.
 Variable o : oracles.
+Variable wfail : bool.
 Variable trace : bytes.
 Variable T0 : bytes.                          (* the unread input when DATA started reading *)
 
@@ -123,7 +124,7 @@ Proof.
 Qed.
 
 Lemma body_loop_post fuel : forall r l msg sz seen d r',
-  I seen msg sz r l -> body_loop fuel o r l msg sz seen = (d, r') -> post d r'.
+  I seen msg sz r l -> body_loop fuel o wfail r l msg sz seen = (d, r') -> post d r'.
 Proof.
   induction fuel as [|f IH]; intros r l msg sz seen d r' HI H; cbn [body_loop] in H.
   { inversion H; subst. exact Logic.I. }
@@ -131,6 +132,7 @@ Proof.
   { inversion H; subst. apply dfinal_post; [exact HI|].
     apply orb_true_iff in Ex as [E|E]; [left; exact E|right; now apply N.ltb_lt]. }
   apply orb_false_iff in Ex as [End _].
+  destruct wfail; [inversion H; subst; exact Logic.I|].
   destruct (dread r l) as [[d0|l'] r1] eqn:Ed.
   - inversion H; subst. destruct d; try exact Logic.I; unfold dread in Ed; destruct (net_read r) as [it rr]; destruct it; inversion Ed.
   - apply (IH _ _ _ _ _ _ _ (I_step _ _ _ _ _ _ _ HI End Ed) H).
@@ -139,7 +141,7 @@ Qed.
 (** header loop: additionally the hop counter is the number of Received: header lines seen *)
 Lemma hdr_loop_post fuel : forall r l msg sz hops seen d r',
   I seen msg sz r l -> hops = count_rcv seen -> hops <= MAXHOPS -> Forall (fun x => x <> []) seen ->
-  hdr_loop fuel o r l msg sz hops seen = (d, r') ->
+  hdr_loop fuel o wfail r l msg sz hops seen = (d, r') ->
   post d r'
   /\ match d with
      | D_loop l' seen' => count_rcv (seen' ++ [l']) = S MAXHOPS /\ Forall (fun x => x <> []) (seen' ++ [l'])
@@ -153,6 +155,7 @@ Proof.
   destruct (is_dot l || N.ltb (maxbytes o) sz || Nat.eqb (length l) 0 || Nat.ltb MAXHOPS hops) eqn:Ex.
   - destruct l as [|b t].
     + (* empty line: body follows *)
+      destruct wfail eqn:Ewf; [inversion H; subst; split; exact Logic.I|]. rewrite <- Ewf in H.
       destruct (dread r []) as [[d0|l'] r1] eqn:Ed.
       * inversion H; subst. split; [|]; destruct d; try exact Logic.I; unfold dread in Ed; destruct (net_read r) as [it rr]; destruct it; inversion Ed.
       * assert (HI' : I (seen ++ [[]]) (msg ++ [LF]) (sz + 2)%N r1 l').
@@ -160,12 +163,13 @@ Proof.
           replace (sz + 0 + 2)%N with (sz + 2)%N in X by lia. exact X. }
         pose proof (body_loop_post _ _ _ _ _ _ _ _ HI' H) as Hp. split; [exact Hp|].
         (* the header part of what the body loop returns is [seen]; the body loop never reports a mail loop *)
-        assert (Hpre : forall fuel r l msg sz sn d r', body_loop fuel o r l msg sz sn = (d, r') ->
+        assert (Hpre : forall fuel r l msg sz sn d r', body_loop fuel o wfail r l msg sz sn = (d, r') ->
                   match d with D_eod _ _ s' => exists t, s' = sn ++ t | D_loop _ _ => False | _ => True end).
         { clear. induction fuel as [|f IH]; intros r l msg sz sn d r' H; cbn [body_loop] in H; [inversion H; exact Logic.I|].
           destruct (is_dot l || N.ltb (maxbytes o) sz).
           - inversion H; subst. unfold dfinal. destruct (N.ltb (maxbytes o) sz); [exact Logic.I|]. exists []. now rewrite app_nil_r.
-          - destruct (dread r l) as [[d0|l'] r1] eqn:Ed.
+          - destruct wfail; [inversion H; subst; exact Logic.I|].
+            destruct (dread r l) as [[d0|l'] r1] eqn:Ed.
             + inversion H; subst. apply dread_inl in Ed. destruct d; try exact Logic.I; contradiction.
             + apply IH in H. destruct d; try exact Logic.I; try contradiction. destruct H as (t & ->). exists (l :: t). now rewrite <- app_assoc. }
         apply Hpre in H. destruct d; try exact Logic.I; try contradiction. destruct H as (t & ->).
@@ -185,7 +189,8 @@ Proof.
       split.
       * rewrite count_rcv_app. unfold count_rcv at 2. simpl. rewrite Er. simpl. lia.
       * apply Forall_app. split; [exact Hne|]. constructor; [exact Hlne|constructor].
-    + destruct (dread r l) as [[d0|l'] r1] eqn:Ed.
+    + destruct wfail eqn:Ewf; [inversion H; subst; split; exact Logic.I|].
+      destruct (dread r l) as [[d0|l'] r1] eqn:Ed.
       * inversion H; subst. split; destruct d; try exact Logic.I; unfold dread in Ed; destruct (net_read r) as [it rr]; destruct it; inversion Ed.
       * apply (IH _ _ _ _ _ _ _ _ (I_step _ _ _ _ _ _ _ HI End Ed)) in H; [exact H| | |].
         -- rewrite count_rcv_app. unfold count_rcv at 2. simpl. destruct (rcv_line l); simpl; lia.
@@ -196,7 +201,7 @@ Qed.
 End Data.
 
 (** DATA as a whole, started in reader state [r] *)
-Theorem data_loop_spec fuel o r trace d r' : rstate_ok r -> data_loop fuel o r trace = (d, r') ->
+Theorem data_loop_spec fuel o wfail r trace d r' : rstate_ok r -> data_loop fuel o wfail r trace = (d, r') ->
   match d with
   | D_eod msg sz seen =>
       (* the message is the trace header followed by exactly the client's data lines, in order, CRLF -> LF, leading dot removed *)
@@ -223,7 +228,7 @@ Proof.
   assert (HI : I trace (total r) [] trace 0%N r1 l).
   { unfold I, stored, wire. simpl. rewrite app_nil_r. repeat split; auto. }
   assert (HM : 0 <= MAXHOPS) by lia.
-  destruct (hdr_loop_post o trace (total r) fuel _ _ _ _ _ _ _ _ HI eq_refl HM (Forall_nil _) H) as (Hp & Hh).
+  destruct (hdr_loop_post o wfail trace (total r) fuel _ _ _ _ _ _ _ _ HI eq_refl HM (Forall_nil _) H) as (Hp & Hh).
   destruct d; try exact Logic.I.
   - cbn [post] in Hp. destruct Hp as (Hm & Hs & Hle & Ht & Hall).
     split; [exact Hm|]. split; [exact Ht|]. split; [exact Hall|]. split; [exact Hs|]. split; [|exact Hh].
